@@ -121,3 +121,10 @@ pub unsafe fn uf_m128_floor(a: __m128) -> __m128 {
     let a = f(a);
     m([crate::uf::ufloor_f32(a[0]), crate::uf::ufloor_f32(a[1]), crate::uf::ufloor_f32(a[2]), crate::uf::ufloor_f32(a[3])])
 }
+
+// FMA (only reachable when the crate is compiled with +fma): per-lane fused multiply-add, the same
+// uninterpreted symbol as the scalar `math::mul_add` shim
+pub fn mm_fmadd_ps(a: __m128, b: __m128, c: __m128) -> __m128 {
+    let (a, b, c) = (f(a), f(b), f(c));
+    m([crate::uf::mul_add_f32(a[0], b[0], c[0]), crate::uf::mul_add_f32(a[1], b[1], c[1]), crate::uf::mul_add_f32(a[2], b[2], c[2]), crate::uf::mul_add_f32(a[3], b[3], c[3])])
+}
